@@ -263,8 +263,53 @@ def conc_claims_at(case, E):
     return {e["n"]: conc_val(e["v"], E, False) for e in case["e"] if e["v"]["k"] != "absent"}
 
 
+def class_history(hist):
+    """one behaviour of ClaimsClasses.tla in this (fresh) process: registry objects of two classes asked in turn"""
+    from joserfc.jwt import JWTClaimsRegistry
+    from joserfc.rfc7519.registry import ClaimsRegistry
+    from joserfc.errors import JoseError
+    E = 1_700_000_000
+    regs = {"plain": ClaimsRegistry(iss={"essential": True, "value": "https://issuer.example"}),
+            "jwt": JWTClaimsRegistry(now=E, leeway=0, iss={"essential": True, "value": "https://issuer.example"})}
+    out = []
+    for i, step in enumerate(hist):
+        c = step["call"]
+        good = {"exp": E + 600, "nbf": E - 600, "iat": E - 600}[c["name"]]
+        bad = {"exp": E - 600, "nbf": E + 600, "iat": E + 600}[c["name"]] if i % 2 else "not-a-date"
+        claims = {"iss": "https://issuer.example", c["name"]: good if c["value"] == "passes" else bad}
+        try:
+            regs[c["cls"]].validate(claims); out.append("ok")
+        except JoseError:
+            out.append("refused")
+        except BaseException as e:  # noqa
+            out.append("escape:" + type(e).__name__)
+    return out
+
+
+def class_pass(ctx: Ctx, pool) -> int:
+    r = ctx.tlc("ClaimsClasses", timeout=300)
+    ctx.sensitivity("ClaimsClasses", "ClaimsClasses_dev_HooksSharedAcrossClasses")
+    hists = list({json.dumps(h, sort_keys=True): h for h in r.cases}.values())
+    if len(hists) < 1000:
+        raise MachineryError(f"ClaimsClasses export too small: {len(hists)}")
+    n = 0
+    for h, obs in zip(hists, pool.map(class_history, hists, chunksize=16)):      # a fresh process per history
+        for i, (step, o) in enumerate(zip(h, obs)):
+            n += 1
+            if o != step["verdict"]:
+                c = step["call"]
+                before = ",".join(f"{s['call']['cls']}:{s['call']['name']}" for s in h[:i])
+                ctx.violation(f"claims:classes {c['cls']} registry, {c['name']} {c['value']} after [{before}] -> {o}", {"class_history": h, "call": i + 1, "observed": o})
+                break
+    ctx.notes["class_histories"] = len(hists)
+    return n
+
+
 def run(ctx: Ctx) -> None:
     thorough = ctx.tier == "thorough"
+    from .common import FreshPool
+    with FreshPool() as fresh:                      # created before this process has validated anything
+        n_classes = class_pass(ctx, fresh)
     r1 = ctx.tlc("Claims", "Claims_single", timeout=900, workers=1)
     r2 = ctx.tlc("Claims", "Claims_pair", timeout=900, workers=1)
     for flag in ("BoolIsNumber", "LeewaySignFlipped", "EssentialNullAccepted", "ValuesAsValue", "BlankDefaultAllowed", "AudNeedsAll"):
@@ -280,7 +325,7 @@ def run(ctx: Ctx) -> None:
         h = hash(key) ^ ctx.seed
         return [h % nvar, (h // 7 + 5) % nvar]
 
-    ctx.evaluations = check_cases(ctx, cases, variants)
+    ctx.evaluations = check_cases(ctx, cases, variants) + n_classes
     ctx.evaluations += reuse_pass(ctx, cases, thorough)
     ctx.evaluations += trace_claims(ctx)
     ctx.traces = len(cases)
@@ -297,6 +342,14 @@ def run(ctx: Ctx) -> None:
 
 
 def replay(ctx: Ctx, rec: dict) -> None:
+    if "class_history" in rec:
+        from .common import FreshPool
+        with FreshPool(1) as fresh:
+            obs = fresh.map(class_history, [rec["class_history"]])[0]
+        print([s["call"] for s in rec["class_history"]], "->", obs)
+        if any(o != s["verdict"] for o, s in zip(obs, rec["class_history"])):
+            ctx.violation(rec["signature"], {"now": obs})
+        return
     args = concretize(rec["case"], rec.get("variant", 0))
     out, unmod = execute(*args)
     print("case:", json.dumps(rec["case"]))
